@@ -147,3 +147,52 @@ pub fn tagged_ext_targets() -> Vec<&'static Target> {
         &T_EARLY, &T_VERSIONS, &T_COOKIE, &T_PSKMODES,
     ]
 }
+
+// ---- parse_content_and_signature with three content parsers x both flag values
+use vcommon::v::V;
+pub fn ec_point_parse(i: &[u8]) -> IResult<&[u8], ECPoint> {
+    <ECPoint as nom_derive::Parse<&[u8]>>::parse(i)
+}
+
+/// reference for parse_content_and_signature: content value, then the signature form chosen by the flag
+pub fn ref_pair(content: fn(&[u8]) -> Ref, with_alg: bool, b: &[u8]) -> Ref {
+    match content(b) {
+        Ref::Must(c, used) => match wire::ref_digitally_signed(&b[used..], with_alg) {
+            Ref::Must(s, su) => {
+                // re-base the signature's slices to the whole input
+                fn shift(v: &V, by: usize) -> V {
+                    match v {
+                        V::S(_, 0) => V::S(0, 0),
+                        V::S(o, l) => V::S(o + by, *l),
+                        V::L(x) => V::L(x.iter().map(|y| shift(y, by)).collect()),
+                        V::N(n, x) => V::N(n, x.iter().map(|y| shift(y, by)).collect()),
+                        V::Some(x) => V::some(shift(x, by)),
+                        o => o.clone(),
+                    }
+                }
+                Ref::Must(V::N("Pair", vec![c, shift(&s, used)]), used + su)
+            }
+            Ref::Reject(w) => Ref::Reject(w),
+            Ref::Unspec(w) => Ref::Unspec(w),
+        },
+        o => o,
+    }
+}
+
+macro_rules! pair_target {
+    ($label:expr, $fun:expr, $cref:expr, $flag:expr) => {
+        Target {
+            name: $label,
+            run: |b| call(b, |i| parse_content_and_signature(i, $fun, $flag)),
+            reference: |b| ref_pair($cref, $flag, b),
+        }
+    };
+}
+
+pub static P_DH_NEW: Target = pair_target!("parse_content_and_signature(dh,true)", parse_dh_params, wire::ref_dh_params, true);
+pub static P_DH_OLD: Target = pair_target!("parse_content_and_signature(dh,false)", parse_dh_params, wire::ref_dh_params, false);
+pub static P_ECDH_NEW: Target = pair_target!("parse_content_and_signature(ecdh,true)", parse_ecdh_params, wire::ref_ecdh_params, true);
+pub static P_ECDH_OLD: Target = pair_target!("parse_content_and_signature(ecdh,false)", parse_ecdh_params, wire::ref_ecdh_params, false);
+pub static P_PT_NEW: Target = pair_target!("parse_content_and_signature(ecpoint,true)", ec_point_parse, wire::ref_ec_point, true);
+pub static P_PT_OLD: Target = pair_target!("parse_content_and_signature(ecpoint,false)", ec_point_parse, wire::ref_ec_point, false);
+
